@@ -51,6 +51,46 @@ pub fn install_logger() {
     log::set_max_level(log::LevelFilter::Off);
 }
 
+/// Progress of the current worker, for its hang monitor (see main.rs): RUN_SEQ ticks with every execution
+/// (also the minimiser's), RUN_IDX is the run index being worked on (u64::MAX between runs).
+pub static RUN_SEQ: std::sync::atomic::AtomicU64 = std::sync::atomic::AtomicU64::new(0);
+pub static RUN_IDX: std::sync::atomic::AtomicU64 = std::sync::atomic::AtomicU64::new(u64::MAX);
+/// seconds one execution may take before the worker gives up on it and reports "HANG <idx>"
+pub fn run_limit_s() -> u64 {
+    env_u64("VERIF_RUN_LIMIT", 90)
+}
+
+/// Runs a child to completion, or kills it after `secs` seconds (None).
+pub fn output_with_timeout(cmd: &mut Command, secs: u64) -> Option<std::process::Output> {
+    let mut ch = cmd.stdin(Stdio::null()).stdout(Stdio::piped()).stderr(Stdio::null()).spawn().ok()?;
+    let mut out = ch.stdout.take()?;
+    let reader = std::thread::spawn(move || {
+        let mut v = Vec::new();
+        let _ = out.read_to_end(&mut v);
+        v
+    });
+    let mut waited = 0u64;
+    loop {
+        match ch.try_wait() {
+            Ok(Some(status)) => {
+                let stdout = reader.join().unwrap_or_default();
+                return Some(std::process::Output { status, stdout, stderr: Vec::new() });
+            }
+            Ok(None) => {
+                if waited >= secs * 10 {
+                    let _ = ch.kill();
+                    let _ = ch.wait();
+                    let _ = reader.join();
+                    return None;
+                }
+                std::thread::sleep(Duration::from_millis(100));
+                waited += 1;
+            }
+            Err(_) => return None,
+        }
+    }
+}
+
 /// The wall-clock seam: `verif_clock_step` is exported by the LD_PRELOADed clock shim (see
 /// /verif/shim/clockshim.c); without the shim the symbol is absent and the seam is inert.
 pub mod wallclock {
@@ -126,6 +166,7 @@ pub fn set_run_environment(spec: &Spec) {
 }
 
 pub fn execute_guarded(scn: &dyn Scenario, spec: &Spec, st: &mut Stats) -> RunEnd {
+    RUN_SEQ.fetch_add(1, std::sync::atomic::Ordering::Relaxed);
     crate::gens::set_call_generic(spec.generic);
     crate::gens::set_place(spec.place);
     if spec.generic {
@@ -257,6 +298,7 @@ pub fn worker(scn: &dyn Scenario, tier: Tier, seed: u64, w: u64, nw: u64, total:
             println!("IDX {}", idx);
             std::io::stdout().flush().ok();
         }
+        RUN_IDX.store(idx, std::sync::atomic::Ordering::Relaxed);
         let (spec, r, dg) = one_run(scn, tier, seed, idx, &mut st);
         out.runs += 1;
         if all_digests || (idx % DIGEST_STRIDE == 0 && out.digests.len() < 4000) {
@@ -303,6 +345,7 @@ pub fn worker(scn: &dyn Scenario, tier: Tier, seed: u64, w: u64, nw: u64, total:
                 }
             }
         }
+        RUN_IDX.store(u64::MAX, std::sync::atomic::Ordering::Relaxed);
         idx += nw;
     }
     out.evals = st.evals;
@@ -480,11 +523,11 @@ pub fn parent(scn: &dyn Scenario, tier: Tier, seed: u64) -> i32 {
     // run, shrink it with fresh processes, report it. Other properties cannot decide anything then.
     let mut crash_lines: Vec<String> = Vec::new();
     // (the functional properties as well: an operation that kills the process did not return what they demand)
-    let crash_counts = matches!(id, "C14" | "C05" | "C08" | "C09" | "C10" | "C11" | "C12" | "C13" | "C16");
+    let crash_counts = matches!(id, "C14" | "C05" | "C08" | "C09" | "C10" | "C11" | "C12" | "C13" | "C16" | "C17" | "C19");
     if crash_counts && !died.is_empty() {
         let replays = verif_dir().join("replays");
         std::fs::create_dir_all(&replays).ok();
-        for w in &died {
+        for w in died.iter().take(3) {
             if let Some(idx) = crash_hunt(&exe, id, tier, seed, *w, nw, total) {
                 let mut rng = Prng::new(run_seed(seed, id, idx));
                 let spec = generate(scn, &mut rng, tier);
@@ -503,8 +546,13 @@ pub fn parent(scn: &dyn Scenario, tier: Tier, seed: u64) -> i32 {
             attempts: 0,
             stderr_full: false,
                 };
-                if !crashes_in_fresh_process(&exe, &rf, &path) {
+                let fate = fresh_process_fate(&exe, &rf, &path);
+                if fate == Fate::Returns {
                     continue;
+                }
+                if fate == Fate::Hangs {
+                    rf.class = format!("{}/hang", id);
+                    rf.detail = format!("run {} does not return: an operation is still running {} s after it started although every clock it reads keeps advancing (deadlock or endless loop)", idx, run_limit_s());
                 }
                 // shrink with fresh processes (the executor cannot survive the crash itself)
                 let t_shrink = Instant::now();
@@ -517,7 +565,7 @@ pub fn parent(scn: &dyn Scenario, tier: Tier, seed: u64) -> i32 {
                         cand.spec = c;
                         cand.shrink_steps += 1;
                         let tmp = replays.join(format!("{}-{}-{}.cand.json", id, seed, idx));
-                        if crashes_in_fresh_process(&exe, &cand, &tmp) {
+                        if fate == Fate::Killed && crashes_in_fresh_process(&exe, &cand, &tmp) {
                             rf = cand;
                             std::fs::remove_file(&tmp).ok();
                             continue 'outer;
@@ -801,7 +849,8 @@ pub fn spawn_workers_x(exe: &std::path::Path, id: &str, tier: Tier, seed: u64, n
         ch.stdout.take().unwrap().read_to_string(&mut s).ok();
         let status = ch.wait().expect("wait");
         if !status.success() {
-            if status.code().is_none() || status.code() == Some(134) {
+            if status.code().is_none() || status.code() == Some(134) || status.code() == Some(4) {
+                // killed by a signal, aborted, or given up by its own hang monitor (exit 4)
                 died.push(w as u64);
             }
             harness_errors.push(format!("worker {} exited with {:?}", w, status));
@@ -842,13 +891,12 @@ fn replay_stderr(full: bool) -> Stdio {
 /// Re-run the slice of a worker that died, with the run index printed before every run: the last
 /// index printed is the run during which the process was killed.
 pub fn crash_hunt(exe: &std::path::Path, id: &str, tier: Tier, seed: u64, w: u64, nw: u64, total: u64) -> Option<u64> {
-    let out = Command::new(exe)
-        .args(["worker", id, tier.name(), &seed.to_string(), &w.to_string(), &nw.to_string(), &total.to_string(), "3600"])
-        .env("VERIF_TRACE_IDX", "1")
-        .stdin(Stdio::null())
-        .stderr(Stdio::null())
-        .output()
-        .ok()?;
+    let out = output_with_timeout(
+        Command::new(exe)
+            .args(["worker", id, tier.name(), &seed.to_string(), &w.to_string(), &nw.to_string(), &total.to_string(), "3600"])
+            .env("VERIF_TRACE_IDX", "1"),
+        4000,
+    )?;
     if out.status.success() {
         return None;
     }
@@ -857,10 +905,29 @@ pub fn crash_hunt(exe: &std::path::Path, id: &str, tier: Tier, seed: u64, w: u64
 
 /// true when executing `spec` (as a replay file) in a fresh process kills the process
 pub fn crashes_in_fresh_process(exe: &std::path::Path, rf: &ReplayFile, path: &std::path::Path) -> bool {
+    fresh_process_fate(exe, rf, path) != Fate::Returns
+}
+
+#[derive(Clone, Copy, PartialEq, Debug)]
+pub enum Fate {
+    Returns,
+    Killed,
+    Hangs,
+}
+
+/// What happens to a fresh process that executes this spec: it returns, it is killed (stack overflow,
+/// abort), or it is still running after the per-run limit (a deadlock, an endless loop).
+pub fn fresh_process_fate(exe: &std::path::Path, rf: &ReplayFile, path: &std::path::Path) -> Fate {
     std::fs::write(path, serde_json::to_string_pretty(rf).unwrap()).ok();
-    match Command::new(exe).args(["replay", path.to_str().unwrap()]).stdin(Stdio::null()).stdout(Stdio::null()).stderr(Stdio::null()).status() {
-        Ok(st) => st.code().is_none() || st.code() == Some(134),
-        Err(_) => false,
+    match output_with_timeout(Command::new(exe).args(["replay", path.to_str().unwrap()]), run_limit_s() + 15) {
+        None => Fate::Hangs,
+        Some(o) => {
+            if o.status.code().is_none() || o.status.code() == Some(134) {
+                Fate::Killed
+            } else {
+                Fate::Returns
+            }
+        }
     }
 }
 
@@ -1046,10 +1113,11 @@ pub fn parent_c18(scn: &dyn Scenario, tier: Tier, seed: u64, bins: &[(String, St
         };
         std::fs::write(&path, serde_json::to_string_pretty(&rf).unwrap()).expect("write replay");
         let per_op = |bin: &str| -> Vec<u64> {
-            Command::new(bin)
-                .args(["corpus-one", path.to_str().unwrap()])
-                .output()
-                .ok()
+            output_with_timeout(Command::new(bin).args(["corpus-one", path.to_str().unwrap()]), run_limit_s() + 15)
+                .or_else(|| {
+                    // still running after the limit: the run hangs in this configuration (counted like a kill)
+                    Some(std::process::Output { status: std::os::unix::process::ExitStatusExt::from_raw(9), stdout: Vec::new(), stderr: Vec::new() })
+                })
                 .map(|o| {
                     if o.status.code().is_none() || o.status.code() == Some(134) {
                         // the process was killed while executing this spec
